@@ -315,3 +315,5 @@ where
 }
 
 mod means;
+#[cfg(rust_ndarray_ndarray_stats_verif)]
+pub use self::means::{verif_central_moment_coefficients, verif_horner_method};
